@@ -415,7 +415,7 @@ def main():
             "guard": "p2sh_verif",
             "enable": "RUSTFLAGS='--cfg p2sh_verif' (harness: /verif/harness/.cargo/config.toml; binary: lib/core.py build_binary)",
             "baseline_off_cmd": "cd /repo && cargo test --workspace --no-fail-fast --offline",
-            "source_commits": ["dcc789f", "6113cbd"],
+            "source_commits": ["dcc789f", "6113cbd", "9f8ac1e"],
             "add_only": True,
         },
         "engines": [
